@@ -87,6 +87,8 @@ func mapKey(v Value) (interface{}, bool) {
 		return v.C, v.S == nil
 	case string:
 		return v, true
+	case SymStr:
+		return nil, false // decided per entry by the solver (mapFind)
 	case *Value:
 		return v, true
 	case *ChanV:
